@@ -140,8 +140,8 @@ def _exp_lemmas(ctx, term):
 
 
 @harness('C04', 'subrange_sequence',
-         quick=[dict(nt=2, npr=2, mode='linear', _shards=4), dict(nt=2, npr=2, mode='exp', _shards=4)],
-         thorough=[dict(nt=3, npr=2, mode='linear', _shards=16), dict(nt=2, npr=3, mode='exp', _shards=16), dict(nt=2, npr=2, mode='linear', ktable=2, _shards=4)],
+         quick=[dict(nt=2, npr=2, mode='linear', _shards=8), dict(nt=2, npr=1, mode='exp', _shards=4)],
+         thorough=[dict(nt=2, npr=2, mode='exp', _shards=16), dict(nt=3, npr=2, mode='linear', _shards=16), dict(nt=2, npr=3, mode='exp', _shards=16), dict(nt=2, npr=2, mode='linear', ktable=2, _shards=4)],
          covers=['same_cell', 'different_cell'], functions=FUNCS, shard_depth=4, max_paths=60000,
          stubs=['pickle.load/open -> the symbolic table', 'log10/exp/ln UF'],
          outside=['sequences longer than two calls', 'requested grids that are not runs of native points (see C13)'])
